@@ -71,9 +71,14 @@ def check_laws(case):
         b = np.asarray(order.dominates(A, V[j]))
         if b.shape != (n,) or not np.array_equal(b.astype(bool), exp[:, j]):
             return Result.violation("C12:batched", f"dominates(A,{V[j].tolist()})={b.tolist()} expected {exp[:, j].tolist()}", labels)
-    bi = np.asarray(cone.is_inside(A - V[0]))
-    if bi.shape != (n,) or not np.array_equal(bi.astype(bool), exp[:, 0]):
-        return Result.violation("C12:batched", f"is_inside(A-v0)={bi.tolist()}", labels)
+    # every batch size 1..n (in particular a batch of exactly dim vectors, which is a square array), both argument forms
+    for k in range(1, n + 1):
+        bi = np.asarray(cone.is_inside(A[:k] - V[0]))
+        if bi.shape != (k,) or not np.array_equal(bi.astype(bool), exp[:k, 0]):
+            return Result.violation("C12:batched", f"is_inside of a batch of {k} vectors (dim {len(V[0])}): {bi.tolist()} expected {exp[:k, 0].tolist()}", labels)
+        bb = np.asarray(order.dominates(A[:k], np.tile(V[n - 1], (k, 1))))
+        if bb.shape != (k,) or not np.array_equal(bb.astype(bool), exp[:k, n - 1]):
+            return Result.violation("C12:batched", f"dominates(batch of {k}, batch of {k}) (dim {len(V[0])}): {bb.tolist()} expected {exp[:k, n - 1].tolist()}", labels)
     off = ~np.eye(n, dtype=bool)
     distinct = np.array([[np.any(V[i] != V[j]) for j in range(n)] for i in range(n)])
     nt = bool((exp & off & distinct).any() and (~exp & off).any()) or boundary
